@@ -62,6 +62,9 @@ type framePlan struct {
 	insertPos int // reorder: position among pending frames of the consumer's inbox
 	reuse     int // 0 none, 1 flip bytes in place, 2 reset+refill, 3 both
 	discard   bool // consumers decode with DiscardUnknown
+	mergeTwice bool // consumers decode the frame and then merge-decode it again onto the result
+	prebuilt  proto.Message // pulsar producer: message built at plan time with a tape-drawn history
+	roOps     []int         // read-only calls the producer makes on its message before Marshal
 }
 
 type sentFrame struct {
@@ -348,6 +351,34 @@ func handlerOp(m proto.Message, kind int) {
 	}
 }
 
+// decodeFrame is what a consumer does with a received buffer, and what the
+// control decode does with the private copy of the same bytes. AllowPartial
+// skips protobuf-go's post-decode initialisation walk, which on the current
+// tree panics on the nil message value a key-only map entry leaves behind (a
+// matter for other properties); a decoder panic is recorded as an error on
+// both sides alike.
+func decodeFrame(buf []byte, msg proto.Message, p *framePlan) (err error) {
+	defer func() {
+		if r := recover(); r != nil {
+			err = fmt.Errorf("decoder panicked: %v", r)
+		}
+	}()
+	err = proto.UnmarshalOptions{DiscardUnknown: p.discard, AllowPartial: true}.Unmarshal(buf, msg)
+	if err == nil && p.mergeTwice {
+		// the same frame merged onto its own decode: every map key exists already
+		err = proto.UnmarshalOptions{DiscardUnknown: p.discard, AllowPartial: true, Merge: true}.Unmarshal(buf, msg)
+	}
+	return err
+}
+
+// safeHandlerOp: a read-only call that panics on an odd message shape (for
+// instance a nil message map value left by a key-only map entry) is another
+// property's business; here it only must not write.
+func safeHandlerOp(m proto.Message, kind int) {
+	defer func() { recover() }()
+	handlerOp(m, kind)
+}
+
 func runPipeline(c *simrun.Ctx) *simrun.Violation {
 	t := c.T
 	st := c.Stats
@@ -372,8 +403,29 @@ func runPipeline(c *simrun.Ctx) *simrun.Violation {
 			fp.av = simval.Gen(t, md, cfg)
 			fp.foreign = t.Chance("foreign", 1, 3)
 			if fp.foreign {
-				fp.wire = (&simval.EncodeOpts{T: t, Shuffle: true}).Encode(fp.av)
+				fp.wire = (&simval.EncodeOpts{T: t, Shuffle: true, DupMapKeys: t.Chance("dupkeys", 1, 2), KeyOnlyEntries: t.Chance("keyonly", 1, 3)}).Encode(fp.av)
+			} else {
+				// the producer's message is built here, with a tape-drawn history
+				// (struct literal with empty non-nil containers and spare capacity,
+				// or reflection with over-filled and truncated lists)
+				h := &simval.History{T: t}
+				var err error
+				if t.Chance("build-struct", 1, 2) {
+					h.EmptyNotNil = t.Chance("empty-notnil", 1, 2)
+					h.EmptyCap = []int{0, 1, 4}[t.Draw("empty-cap", 3)]
+					fp.prebuilt, err = h.BuildStruct(fp.av, corpus[fp.typ].ProtoReflect().Type())
+				} else {
+					h.TruncateLists = t.Chance("truncate-lists", 1, 2)
+					fp.prebuilt, err = h.BuildReflect(fp.av, corpus[fp.typ].ProtoReflect().Type())
+				}
+				if err != nil {
+					fp.prebuilt = nil
+				}
+				for k, n := 0, t.Draw("roops", 4); k < n; k++ {
+					fp.roOps = append(fp.roOps, 1+t.Draw("roop", numHandlerOps-1))
+				}
 			}
+			fp.mergeTwice = t.Chance("merge-twice", 1, 5)
 			fp.api = t.Draw("api", 4)
 			fp.prefixLen = t.Draw("prefixlen", 6)
 			fp.prefixCap = fp.prefixLen + []int{0, 1, 16, 4096}[t.Draw("prefixcap", 4)]
@@ -450,22 +502,40 @@ func runPipeline(c *simrun.Ctx) *simrun.Violation {
 			simhook.SetTaskOrd(ord)
 			dead := simhook.NewReplayTape(nil)
 			var m proto.Message
+			reuseObj := false
 			for _, fp := range pl {
 				var frame []byte
 				if fp.foreign {
 					frame = fp.wire
 				} else {
 					mt := corpus[fp.typ].ProtoReflect().Type()
-					if m == nil || m.ProtoReflect().Descriptor() != mt.Descriptor() || fp.reuse < 2 {
-						m = mt.New().Interface()
+					if reuseObj && m != nil && m.ProtoReflect().Descriptor() == mt.Descriptor() {
+						// re-use the same object for the next value
+						proto.Reset(m)
+						if _, err := (&simval.History{T: dead}).BuildReflectInto(m.ProtoReflect(), fp.av); err != nil {
+							lg.notes = append(lg.notes, "build failed: "+err.Error())
+							w.cancel(fp)
+							continue
+						}
+					} else if fp.prebuilt != nil {
+						m = fp.prebuilt
 					} else {
-						proto.Reset(m) // re-use the same object for the next value
-					}
-					if _, err := (&simval.History{T: dead}).BuildReflectInto(m.ProtoReflect(), fp.av); err != nil {
-						lg.notes = append(lg.notes, "build failed: "+err.Error())
+						lg.notes = append(lg.notes, "prebuild failed")
 						w.cancel(fp)
 						continue
 					}
+					reuseObj = fp.reuse >= 2
+					// read-only calls before encoding must leave the struct alone
+					for _, op := range fp.roOps {
+						before := simval.TakeSnapshot(m)
+						safeHandlerOp(m, op)
+						after := simval.TakeSnapshot(m)
+						if before.Hash != after.Hash {
+							lg.errf("C07:read-only-call-changed-the-message-struct|producer-side op %d on frame %d (type %s): %v", op, fp.id, mt.Descriptor().FullName(), before.Diff(after))
+						}
+						simhook.Yield(-2)
+					}
+					before := simval.TakeSnapshot(m)
 					var err error
 					prefix := make([]byte, fp.prefixLen, fp.prefixCap)
 					for i := range prefix {
@@ -491,6 +561,9 @@ func runPipeline(c *simrun.Ctx) *simrun.Violation {
 						lg.notes = append(lg.notes, "marshal failed: "+err.Error())
 						w.cancel(fp)
 						continue
+					}
+					if after := simval.TakeSnapshot(m); before.Hash != after.Hash {
+						lg.errf("C07:read-only-call-changed-the-message-struct|Marshal (api %d) of frame %d (type %s): %v", fp.api, fp.id, mt.Descriptor().FullName(), before.Diff(after))
 					}
 				}
 				if len(frame) > slotSize {
@@ -546,7 +619,7 @@ func runPipeline(c *simrun.Ctx) *simrun.Violation {
 				atomic.LoadUint32(&w.slotSync[sf.slot]) // acquire: the sender filled the buffer
 				buf := w.slotBuf(sf.slot, sf.n)
 				msg := corpus[sf.plan.typ].ProtoReflect().Type().New().Interface()
-				err := proto.UnmarshalOptions{DiscardUnknown: sf.plan.discard}.Unmarshal(buf, msg)
+				err := decodeFrame(buf, msg, sf.plan)
 				simhook.Yield(-2)
 				if checksum(buf) != sf.sum {
 					lg.errf("C07:unmarshal-modified-its-input|frame %d type %s", sf.plan.id, msg.ProtoReflect().Descriptor().FullName())
@@ -609,7 +682,7 @@ func runPipeline(c *simrun.Ctx) *simrun.Violation {
 							lg.digests = append(lg.digests, digestRec{hd.it.frame, hd.it.cons, fmt.Sprintf("handler %d action %d", hi, ai), d})
 						} else {
 							before := simval.TakeSnapshot(hd.it.msg)
-							handlerOp(hd.it.msg, a.kind)
+							safeHandlerOp(hd.it.msg, a.kind)
 							after := simval.TakeSnapshot(hd.it.msg)
 							if before.Hash != after.Hash {
 								lg.errf("C07:read-only-call-changed-the-message-struct|op %d on frame %d: %v", a.kind, hd.it.frame, before.Diff(after))
@@ -676,15 +749,15 @@ func runPipeline(c *simrun.Ctx) *simrun.Violation {
 	c.Observe(sched.SeqHash, uint64(sched.Steps))
 	c.Result = sched.SeqHash
 	c.Trace = append(c.Trace, "schedule: "+strings.Join(schedule, " "))
-	if sched.Deadlocked {
-		c.EngineError = "pipeline deadlocked (harness bug): " + strings.Join(schedule, " ")
-		return nil
-	}
 	for i, tk := range sched.Tasks() {
-		if tk.Panic != nil {
-			c.EngineError = fmt.Sprintf("pipeline task %d panicked (harness bug or a decoder/encoder panic, which is another property's matter): %v", i, tk.Panic)
+		if tk.Panic != nil && !strings.Contains(fmt.Sprint(tk.Panic), "simhook: deadlock") {
+			c.EngineError = fmt.Sprintf("pipeline task %d panicked (harness bug or a decoder/encoder panic, which is another property's matter): %v\nplan: %s", i, tk.Panic, strings.Join(describePlan(plans), "\n"))
 			return nil
 		}
+	}
+	if sched.Deadlocked {
+		c.EngineError = "pipeline deadlocked (harness bug): " + clip(strings.Join(schedule, " "), 600)
+		return nil
 	}
 	// ---- oracles over the recorded history
 	races := newRaceReports()
@@ -707,7 +780,8 @@ func runPipeline(c *simrun.Ctx) *simrun.Violation {
 			return nil
 		}
 		cm := corpus[sf.plan.typ].ProtoReflect().Type().New().Interface()
-		if err := (proto.UnmarshalOptions{DiscardUnknown: sf.plan.discard}).Unmarshal(sf.control, cm); err != nil {
+		err := decodeFrame(sf.control, cm, sf.plan)
+		if err != nil {
 			control[i] = "unmarshal-error: " + err.Error()
 			continue
 		}
@@ -745,6 +819,9 @@ func runPipeline(c *simrun.Ctx) *simrun.Violation {
 			}
 			if fp.bcast >= 0 {
 				st.Add("fault_same_buffer_decoded_by_two_consumers", 1)
+			}
+			if fp.mergeTwice {
+				st.Add("fault_frame_merge_decoded_onto_itself", 1)
 			}
 			if fp.handler2 >= 0 {
 				st.Add("fault_message_shared_by_two_handlers", 1)
